@@ -29,6 +29,10 @@ type Faults struct {
 	OutWriteErr   string `json:"out_write_err,omitempty"`  // ENOSPC (default), EIO, EPIPE
 	OutCloseErr   bool   `json:"out_close_err,omitempty"`  // closing the output fails
 	ErrWriteErrAt int    `json:"err_write_err_at"`         // stderr write fails once this many bytes were accepted
+	// EnvSeed is not a fault: it decides what the process is told about its
+	// surroundings (number of CPUs, environment variables, host name, process
+	// id, home directory). 0: a fixed default machine.
+	EnvSeed uint64 `json:"env_seed,omitempty"`
 }
 
 // NoFaults is the empty plan.
@@ -83,6 +87,7 @@ type World struct {
 	StdinBuf []byte
 	F        Faults
 	Fired    Fired
+	EnvReads int // how often the process asked about its surroundings
 	Exited   bool
 	ExitCode int
 	OutFile  string // name of the file opened through Create, if any
@@ -491,3 +496,96 @@ func LoggerFatalf(l *log.Logger, format string, v ...any) { l.Printf(format, v..
 
 // LoggerFatalln mirrors (*log.Logger).Fatalln.
 func LoggerFatalln(l *log.Logger, v ...any) { l.Println(v...); Exit(1) }
+
+// ---------------------------------------------------------------------------
+// What a process can ask about its surroundings. The answers are a function
+// of Faults.EnvSeed and nothing else: two runs of one input under different
+// seeds are two machines / two sessions.
+
+func envMix(k string) uint64 {
+	z := w.F.EnvSeed
+	for i := 0; i < len(k); i++ {
+		z = (z ^ uint64(k[i])) * 0x100000001b3
+	}
+	z += 0x9e3779b97f4a7c15
+	z = (z ^ (z >> 30)) * 0xbf58476d1ce4e5b9
+	z = (z ^ (z >> 27)) * 0x94d049bb133111eb
+	return z ^ (z >> 31)
+}
+
+// NumCPU mirrors runtime.NumCPU.
+func NumCPU() int {
+	if w == nil || w.F.EnvSeed == 0 {
+		return 16
+	}
+	w.EnvReads++
+	return []int{1, 2, 3, 4, 8, 16, 48, 64, 128}[envMix("cpu")%9]
+}
+
+// GOMAXPROCS mirrors runtime.GOMAXPROCS (the setting is accepted and ignored:
+// the simulator decides who runs).
+func GOMAXPROCS(n int) int { return NumCPU() }
+
+// Getenv mirrors os.Getenv.
+func Getenv(k string) string { v, _ := LookupEnv(k); return v }
+
+// LookupEnv mirrors os.LookupEnv.
+func LookupEnv(k string) (string, bool) {
+	if w == nil || w.F.EnvSeed == 0 {
+		return "", false
+	}
+	w.EnvReads++
+	h := envMix("env:" + k)
+	switch h % 4 {
+	case 0:
+		return "", false
+	case 1:
+		return "", true
+	case 2:
+		return "1", true
+	}
+	return fmt.Sprintf("v%d", h%1000), true
+}
+
+// Environ mirrors os.Environ.
+func Environ() []string {
+	if w == nil || w.F.EnvSeed == 0 {
+		return nil
+	}
+	w.EnvReads++
+	return []string{fmt.Sprintf("HOME=/home/u%d", envMix("home")%100), fmt.Sprintf("TERM=t%d", envMix("term")%5)}
+}
+
+// Hostname mirrors os.Hostname.
+func Hostname() (string, error) {
+	if w != nil {
+		w.EnvReads++
+	}
+	return fmt.Sprintf("host%d", envMix("host")%1000), nil
+}
+
+// Getpid mirrors os.Getpid.
+func Getpid() int {
+	if w != nil {
+		w.EnvReads++
+	}
+	return 1000 + int(envMix("pid")%30000)
+}
+
+// Getppid mirrors os.Getppid.
+func Getppid() int { return 1 + int(envMix("ppid")%900) }
+
+// Getuid mirrors os.Getuid.
+func Getuid() int { return int(envMix("uid") % 2000) }
+
+// UserHomeDir mirrors os.UserHomeDir.
+func UserHomeDir() (string, error) { return fmt.Sprintf("/home/u%d", envMix("home")%100), nil }
+
+// UserCacheDir mirrors os.UserCacheDir.
+func UserCacheDir() (string, error) { h, _ := UserHomeDir(); return h + "/.cache", nil }
+
+// UserConfigDir mirrors os.UserConfigDir.
+func UserConfigDir() (string, error) { h, _ := UserHomeDir(); return h + "/.config", nil }
+
+// Executable mirrors os.Executable.
+func Executable() (string, error) { return "/usr/local/bin/pigeon", nil }
